@@ -147,17 +147,24 @@ thread_local! {
     /// when present, `run_search` uses (and keeps) this engine instead of a fresh one: whatever an
     /// engine carries from one search to the next (statistics today; tables, hints, caches in a
     /// future version) then takes part in the following searches, as in a played game
-    static PERSISTENT: std::cell::RefCell<Option<Engine>> = const { std::cell::RefCell::new(None) };
+    static PERSISTENT: std::cell::RefCell<[Option<Engine>; 2]> = const { std::cell::RefCell::new([None, None]) };
+    /// which of the two persistent engines the next search uses (C13 keeps one per colour view)
+    static SLOT: Cell<usize> = const { Cell::new(0) };
+    static REUSE_ON: Cell<bool> = const { Cell::new(false) };
     /// the searches made so far with the persistent engine (fen, expiry poll, positional), for replay files
-    static REUSE_LOG: std::cell::RefCell<Vec<(String, u64, bool)>> = const { std::cell::RefCell::new(Vec::new()) };
+    static REUSE_LOG: std::cell::RefCell<Vec<(String, u64, bool, usize)>> = const { std::cell::RefCell::new(Vec::new()) };
 }
 
 /// Run `f` with one engine shared by all the searches it makes.
 pub fn with_persistent_engine<R>(f: impl FnOnce() -> R) -> R {
-    PERSISTENT.with(|p| *p.borrow_mut() = Some(Engine::default()));
+    PERSISTENT.with(|p| *p.borrow_mut() = [Some(Engine::default()), Some(Engine::default())]);
+    REUSE_ON.with(|f| f.set(true));
+    SLOT.with(|x| x.set(0));
     REUSE_LOG.with(|l| l.borrow_mut().clear());
     let r = f();
-    PERSISTENT.with(|p| *p.borrow_mut() = None);
+    PERSISTENT.with(|p| *p.borrow_mut() = [None, None]);
+    REUSE_ON.with(|f| f.set(false));
+    SLOT.with(|x| x.set(0));
     REUSE_LOG.with(|l| l.borrow_mut().clear());
     r
 }
@@ -165,10 +172,11 @@ pub fn with_persistent_engine<R>(f: impl FnOnce() -> R) -> R {
 pub fn run_search(board: &Board, tf: &ThreeFold, expire_at: u64, positional: bool) -> Outcome {
     let _ = verif::take_events();
     let t = CountingTimeout::new(expire_at);
-    let kept = PERSISTENT.with(|p| p.borrow_mut().take());
-    let reuse = kept.is_some();
+    let slot = SLOT.with(|x| x.get());
+    let reuse = REUSE_ON.with(|f| f.get());
+    let kept = if reuse { PERSISTENT.with(|p| p.borrow_mut()[slot].take()) } else { None };
     if reuse {
-        REUSE_LOG.with(|l| l.borrow_mut().push((board.to_string(), expire_at, positional)));
+        REUSE_LOG.with(|l| l.borrow_mut().push((board.to_string(), expire_at, positional, slot)));
     }
     let mut engine = kept.unwrap_or_default();
     engine.positional = positional;
@@ -179,7 +187,7 @@ pub fn run_search(board: &Board, tf: &ThreeFold, expire_at: u64, positional: boo
     };
     let events = verif::take_events();
     if reuse {
-        PERSISTENT.with(|p| *p.borrow_mut() = Some(engine));
+        PERSISTENT.with(|p| p.borrow_mut()[slot] = Some(engine));
     }
     let mut runaway = false;
     let result = match r {
@@ -349,7 +357,7 @@ fn replay_of(ep: &EnginePos, k: u64, positional: bool, with_tf: bool) -> J {
         .set("history_fens", if with_tf { ep.history.iter().map(|p| p.to_fen()).collect::<Vec<_>>() } else { vec![] })
         .set(
             "engine_reuse_log",
-            REUSE_LOG.with(|l| l.borrow().iter().map(|(f, k, p)| format!("{k} {} {f}", *p as u8)).collect::<Vec<_>>()),
+            REUSE_LOG.with(|l| l.borrow().iter().map(|(f, k, p, sl)| format!("{k} {}{} {f}", *p as u8, if *sl == 1 { "m" } else { "" })).collect::<Vec<_>>()),
         )
 }
 
@@ -930,27 +938,76 @@ pub fn c13(c: &mut Collector, seed: u64, shard: u64, nshards: u64, thorough: boo
         c.count(&format!("positions:{}", ep.label));
         c13_one(c, ep, budget);
     }
+    // games in which one engine keeps searching the positions and a second engine their mirrors:
+    // whatever an engine carries from search to search must stay colour-symmetric too
+    {
+        let mut grng = Rng::new(mix3(seed, shard, 0x13AE));
+        let n_games = ((if thorough { 80.0 } else { 14.0 }) * scale).max(1.0) as usize;
+        for g in 0..n_games {
+            let theme = [Theme::Sparse, Theme::PawnRace, Theme::MatingNet, Theme::Mid][g % 4];
+            let Some(start) = workload::random_placement(&mut grng, theme, false) else { continue };
+            if start.chess_root_ok().is_err() {
+                continue;
+            }
+            c.count("engine-reuse-games");
+            with_persistent_engine(|| {
+                let mut pos = start.clone();
+                for _ply in 0..8usize {
+                    let legal = pos.legal_moves();
+                    if legal.is_empty() || pos.half >= 100 {
+                        break;
+                    }
+                    let ep = EnginePos { label: "engine-reuse-game", pos: pos.clone(), history: vec![] };
+                    c.count("engine-reuse-pairs");
+                    let before = c.violation_total;
+                    let found = c13_pair(c, &ep, budget / 4);
+                    if c.violation_total > before {
+                        break;
+                    }
+                    let chosen = match found {
+                        Some(m) if legal.contains(&m) => m,
+                        _ => *grng.pick(&legal),
+                    };
+                    pos = pos.apply(chosen);
+                }
+            });
+        }
+    }
 }
 
 pub fn c13_one(c: &mut Collector, ep: &EnginePos, budget: u64) {
+    let _ = c13_pair(c, ep, budget);
+}
+
+/// Search a position and its colour mirror (with the second persistent engine, when engines are
+/// kept) and compare every common depth; returns the move found for the position itself.
+pub fn c13_pair(c: &mut Collector, ep: &EnginePos, budget: u64) -> Option<Mv> {
+    c13_pair_inner(c, ep, budget).flatten()
+}
+
+fn c13_pair_inner(c: &mut Collector, ep: &EnginePos, budget: u64) -> Option<Option<Mv>> {
     let p = &ep.pos;
     let legal = p.legal_moves();
     if legal.iter().any(|m| m.promo.is_some()) {
         c.count("skipped-root-promotion");
-        return;
+        return None;
     }
     let q = p.mirror();
-    let (Ok(b1), Ok(b2)) = (real::parse(&p.to_fen()), real::parse(&q.to_fen())) else { return };
+    let (Ok(b1), Ok(b2)) = (real::parse(&p.to_fen()), real::parse(&q.to_fen())) else { return None };
     c.eval();
     c.journal(&format!("symmetry {}", p.to_fen()));
     let tf = ThreeFold::new();
+    SLOT.with(|x| x.set(0));
     let o1 = run_search(&b1, &tf, budget, false);
+    SLOT.with(|x| x.set(1));
     let o2 = run_search(&b2, &tf, budget, false);
+    SLOT.with(|x| x.set(0));
     let rp = replay_of(ep, budget, false, false).set("mirror_fen", q.to_fen());
     if let (Err(e), _) | (_, Err(e)) = (&o1.result, &o2.result) {
         c.violation("search-panicked", "panic", format!("{}: {e}", p.to_fen()), rp);
-        return;
+        return None;
     }
+    let found = o1.result.as_ref().ok().and_then(|(m, _)| *m);
     let c1 = o1.commits();
     let c2 = o2.commits();
     let common = c1.len().min(c2.len()).min(16);
@@ -981,7 +1038,7 @@ pub fn c13_one(c: &mut Collector, ep: &EnginePos, budget: u64) {
                 ),
                 rp.clone().set("depth", d),
             );
-            return;
+            return None;
         }
         // the best moves are not compared (ties may break differently), but the mirrored best
         // move must at least be legal in the mirror
@@ -989,6 +1046,7 @@ pub fn c13_one(c: &mut Collector, ep: &EnginePos, budget: u64) {
     if c.want_sample() && common >= 2 {
         c.sample(rp.set("scores", c1.iter().take(common).map(|x| score_str(x.1)).collect::<Vec<_>>()).set("mirror_scores", c2.iter().take(common).map(|x| score_str(x.1)).collect::<Vec<_>>()));
     }
+    Some(found)
 }
 
 pub fn replay(c: &mut Collector, prop: &str, r: &J) -> i32 {
@@ -1009,7 +1067,7 @@ pub fn replay(c: &mut Collector, prop: &str, r: &J) -> i32 {
     let tf = threefold_from(&hist);
     let legal = p.legal_moves();
     // a case found with a persistent engine: repeat the searches that engine had made before
-    let log: Vec<(u64, bool, String)> = r
+    let log: Vec<(u64, bool, String, usize)> = r
         .get("engine_reuse_log")
         .and_then(|x| x.as_arr())
         .map(|a| {
@@ -1017,7 +1075,9 @@ pub fn replay(c: &mut Collector, prop: &str, r: &J) -> i32 {
                 .filter_map(|e| {
                     let t = e.as_str()?;
                     let mut it = t.splitn(3, ' ');
-                    Some((it.next()?.parse().ok()?, it.next()? == "1", it.next()?.to_string()))
+                    let kk: u64 = it.next()?.parse().ok()?;
+                    let flag = it.next()?;
+                    Some((kk, flag.starts_with('1'), it.next()?.to_string(), flag.ends_with('m') as usize))
                 })
                 .collect()
         })
@@ -1027,12 +1087,14 @@ pub fn replay(c: &mut Collector, prop: &str, r: &J) -> i32 {
         return with_persistent_engine(|| {
             // the log may or may not end with the failing search itself; everything before the last
             // entry that equals (fen, k) is warm-up
-            let last = log.iter().rposition(|(kk, pp, f)| *kk == k && *pp == positional && f == fen).unwrap_or(log.len());
-            for (kk, pp, f) in &log[..last] {
+            let last = log.iter().rposition(|(kk, pp, f, sl)| *kk == k && *pp == positional && f == fen && *sl == 0).unwrap_or(log.len());
+            for (kk, pp, f, sl) in &log[..last] {
                 if let Ok(b) = real::parse(f) {
+                    SLOT.with(|x| x.set(*sl));
                     let _ = run_search(&b, &ThreeFold::new(), *kk, *pp);
                 }
             }
+            SLOT.with(|x| x.set(0));
             replay_inner(c, prop, &ep, &board, &tf, !hist.is_empty(), &legal, k, positional, fen)
         });
     }
